@@ -12,4 +12,29 @@ pub open spec fn max_i(a: int, b: int) -> int { if a > b { a } else { b } }
 pub open spec fn delta_b(p0: int, p1: int, l: int, up: bool) -> int { div_round(l * abs_diff(p0, p1), Q(), up) }
 /// token A for a price move p0 <-> p1 at liquidity l  (p0, p1 > 0)
 pub open spec fn delta_a(p0: int, p1: int, l: int, up: bool) -> int { div_round(l * abs_diff(p0, p1) * Q(), p0 * p1, up) }
+pub open spec fn MIN_PRICE() -> int { 4295048016 }
+pub open spec fn MAX_PRICE() -> int { 79226673515401279992447579055 }
+pub open spec fn price_ok(p: int) -> bool { MIN_PRICE() <= p <= MAX_PRICE() }
+/// next sqrt-price after adding (add = true) / removing x of token A at liquidity l: ceil(l*p*Q / (l*Q +- x*p))
+pub open spec fn next_from_a(p: int, l: int, x: int, add: bool) -> int {
+    if x == 0 { p } else { div_round(l * p * Q(), if add { l * Q() + x * p } else { l * Q() - x * p }, true) }
+}
+/// next sqrt-price after adding (add = true) / removing x of token B: p + floor(x*Q/l) | p - ceil(x*Q/l)
+pub open spec fn next_from_b(p: int, l: int, x: int, add: bool) -> int {
+    if add { p + div_round(x * Q(), l, false) } else { p - div_round(x * Q(), l, true) }
+}
+pub open spec fn next_price(p: int, l: int, x: int, is_in: bool, a_to_b: bool) -> int {
+    if is_in == a_to_b { next_from_a(p, l, x, is_in) } else { next_from_b(p, l, x, is_in) }
+}
+/// the token whose amount is specified ("fixed") and the other one ("unfixed"), with the pool-favouring rounding
+pub open spec fn fixed_delta(p0: int, p1: int, l: int, is_in: bool, a_to_b: bool) -> int { if a_to_b == is_in { delta_a(p0, p1, l, is_in) } else { delta_b(p0, p1, l, is_in) } }
+pub open spec fn unfixed_delta(p0: int, p1: int, l: int, is_in: bool, a_to_b: bool) -> int { if a_to_b == is_in { delta_b(p0, p1, l, !is_in) } else { delta_a(p0, p1, l, !is_in) } }
+/// token taken from the trader / paid to the trader for a move p0 -> p1 (input rounds up, output rounds down)
+pub open spec fn delta_in(p0: int, p1: int, l: int, a_to_b: bool) -> int { if a_to_b { delta_a(p0, p1, l, true) } else { delta_b(p0, p1, l, true) } }
+pub open spec fn delta_out(p0: int, p1: int, l: int, a_to_b: bool) -> int { if a_to_b { delta_b(p0, p1, l, false) } else { delta_a(p0, p1, l, false) } }
+pub open spec fn FEE_DEN() -> int { 1_000_000 }
+/// fee on a curve input x at rate r (hundredths of a bp): ceil(x * r / (1e6 - r))
+pub open spec fn fee_on(x: int, r: int) -> int { div_round(x * r, FEE_DEN() - r, true) }
+/// exact-in budget net of fee: floor(x * (1e6 - r) / 1e6)
+pub open spec fn net_of_fee(x: int, r: int) -> int { (x * (FEE_DEN() - r)) / FEE_DEN() }
 }
